@@ -746,6 +746,7 @@ Definition hop_cfg (c : config) (st : filer) (h : hop) : config :=
              (match fext with Some s => s | None => f_fext st end) (tmp_dir c (f_next st))
   | HClose _ => cfg_with c (f_temp st) false (f_fext st) (tmp_dir c (f_next st))
   | HRemake nm bs t cl fl ex fx => cfg_call c nm bs t cl fl ex fx (tmp_dir c (f_next st))
+  | HExit _ => cfg_with c (f_temp st) false (f_fext st) (tmp_dir c (f_next st))
   end.
 
 Lemma clear_st_step : forall c st w r w0,
@@ -771,7 +772,13 @@ Theorem hop_ok : forall c st h w r st' w',
 Proof.
   intros c st h w r st' w' E G H.
   assert (NS : forall q, is_root c q -> ~ scope st q) by (intros; eapply root_not_scope; eauto).
-  destruct h as [temp fext cl reuse clean | cl | nm bs t cl fl ex fx]; simpl in H.
+  destruct h as [temp fext cl reuse clean | cl | nm bs t cl fl ex fx | cl]; simpl in H.
+  4: { (* leaving the context manager: a close whose clear flag is the CURRENT temp attribute or the argument *)
+    destruct (f_temp st || cl).
+    - destruct (clear_st c st w) as [r0 w0] eqn:Ec. inversion H; subst; clear H.
+      pose proof (clear_st_step c st' w r w' G Ec) as S0.
+      exists w'. split; [exact S0|split; [apply step_refl|split; [eapply env_all_step; eauto|auto]]].
+    - inversion H; subst. exists w'. split; [apply step_refl|split; [apply step_refl|split; auto]]. }
   3: { (* a direct remake call: no clear part; the object is untouched *)
     destruct (tmp_dir_snoc c (f_next st)) as [x Hx].
     set (c' := cfg_call c nm bs t cl fl ex fx (tmp_dir c (f_next st))) in *.
@@ -880,4 +887,36 @@ Proof.
   intros c w p w1 hs E Hn H. apply history_ok.
   - eapply constructor_env_all; eauto.
   - eapply born_good; eauto.
+Qed.
+
+(* ---- leaving "with openFiler(...)": exactly the temp resources go ---- *)
+Theorem exit_spec : forall c st cl w r st' w',
+  good c st -> run_hop c st (HExit cl) w = (r, st', w') ->
+  st' = st /\
+  (* a persistent Filer without clear: nothing is touched *)
+  (f_temp st = false -> cl = false -> w' = w /\ r = Ok tt) /\
+  (* otherwise only the object's own scope is touched ... *)
+  step_ok (scope st) w w' /\
+  (* ... and a temp Filer's mkdtemp directory is gone with everything below *)
+  (f_temp st = true -> r = Ok tt ->
+   forall p, f_path st = Some p -> p <> [] -> isdir (w_fs w) (f_tmp st) = true ->
+   forall q, prefix (f_tmp st) q -> q <> [] -> exists_ (w_fs w') q = false) /\
+  (* ... a persistent path is gone only when clear was asked for *)
+  (f_temp st = false -> cl = true -> r = Ok tt ->
+   forall p, f_path st = Some p -> p <> [] -> exists_ (w_fs w') p = false).
+Proof.
+  intros c st cl w r st' w' G H. simpl in H.
+  destruct (f_temp st) eqn:Et; simpl in H.
+  - destruct (clear_st c st w) as [r0 w0] eqn:Ec. inversion H; subst; clear H.
+    split; auto. split; [discriminate|]. split; [eapply clear_st_step; eauto|]. split; [|discriminate].
+    intros _ Hr p Hp Hn Hd q Hq Hqn. unfold clear_st in Ec. rewrite Hp in Ec. subst r.
+    destruct (clear_removes _ p w w' Ec Hn) as [_ Hall].
+    unfold good in G. rewrite Hp, Et in G. destruct G as [_ Hin].
+    simpl in Hall. apply (Hall Et Hin Hd q Hq Hqn).
+  - destruct cl.
+    + destruct (clear_st c st w) as [r0 w0] eqn:Ec. inversion H; subst; clear H.
+      split; auto. split; [discriminate|]. split; [eapply clear_st_step; eauto|]. split; [discriminate|].
+      intros _ _ Hr p Hp Hn. unfold clear_st in Ec. rewrite Hp in Ec. subst r.
+      destruct (clear_removes _ p w w' Ec Hn) as [Hgone _]. exact Hgone.
+    + inversion H; subst. split; auto. split; [auto|]. split; [apply step_refl|]. split; discriminate.
 Qed.
